@@ -617,6 +617,10 @@ class Evaluator:
         return f(a, b)
 
     def binop(s, op, a, b):
+        # a truth value in arithmetic is 1 or 0: (1 - 2*bool(r)) * x is x unless r, then -x
+        if isinstance(op, (ast.Add, ast.Sub, ast.Mult)):
+            if _is_boolterm(a) and isinstance(b, (Poly, Cond, int, F)) and not isinstance(b, bool): a = s.mkcond(a, Poly.const(1), Poly.const(0))
+            if _is_boolterm(b) and isinstance(a, (Poly, Cond, int, F)) and not isinstance(a, bool): b = s.mkcond(b, Poly.const(1), Poly.const(0))
         return s.lift2(lambda x, y: s._binop(op, x, y), a, b)
 
     def _binop(s, op, a, b):
@@ -1124,6 +1128,9 @@ class Evaluator:
         if isinstance(v, Opq) and v.k and v.k[0] in ('list', 'tuple') and len(v.k) == 2 and isinstance(v.k[1], Poly) and isinstance(k, Poly) and k.real_const() is not None:
             v = v.k[1]          # a copy of a sequence is indexed like the sequence
         if isinstance(k, Cond): return Cond(k.g, s.getitem(v, k.a), s.getitem(v, k.b))
+        if _is_boolterm(k) and isinstance(v, (tuple, list, dict)):
+            # t[flag] with a truth value as index / key: the entry at 1 (True) when it holds, the entry at 0 (False) otherwise
+            return s.mkcond(k, s.getitem(v, True if isinstance(v, dict) and True in v else Poly.const(1)), s.getitem(v, False if isinstance(v, dict) and False in v else Poly.const(0)))
         if isinstance(v, dict):
             for kk, vv in v.items():
                 if same(kk.v if isinstance(kk, _HK) else kk, k): return vv
@@ -1314,8 +1321,14 @@ class Evaluator:
                 and depth < s.depth_limit):
             # private helper of the class under analysis: inline it (public queries of `self` stay atoms)
             mem = s.prog.find_member(s.self_class[0], s.self_class[1], attr)
+            if mem and isinstance(mem[1], ast.FunctionDef) and s.prog.is_property(mem[1]):
+                # a private property that yields a callable (a partial application, a closure): fetch it, then call it
+                fv_ = s.call_fn(mem[1], mem[0], [recv], {}, {'__parent__': None}, depth + 1)
+                if _is_callable_term(fv_) and not isinstance(fv_, Poly): return s.apply(fv_, list(args), kw, mod, depth, node)
             if mem and isinstance(mem[1], ast.FunctionDef) and not s.prog.is_property(mem[1]) and not any('abstractmethod' in d_ for d_ in s.prog.decorators(mem[1])):
-                return s.call_fn(mem[1], mem[0], [recv] + list(args), kw, {'__parent__': None}, depth + 1)
+                decs_ = s.prog.decorators(mem[1])
+                first_ = [] if 'staticmethod' in decs_ else ([Ref('class', s.self_class[0], s.self_class[1], s.self_class[1].name)] if 'classmethod' in decs_ else [recv])
+                return s.call_fn(mem[1], mem[0], first_ + list(args), kw, {'__parent__': None}, depth + 1)
         if s.atom_methods and isinstance(recv, Poly) and (recv.as_atom(), attr) in s.atom_methods and depth < s.depth_limit:
             mm_, fn_ = s.atom_methods[(recv.as_atom(), attr)]
             return s.call_fn(fn_, mm_, [recv] + list(args), kw, {'__parent__': None}, depth + 1)
@@ -2640,6 +2653,10 @@ def _pair_set(v):
         if len(items) == 1 and isinstance(items[0], (tuple, list)): items = tuple(items[0])
         if len(items) == 2: return items[0], items[1]
     return None
+
+
+def _is_boolterm(v):
+    return isinstance(v, Opq) and bool(v.k) and v.k[0] in ('cmp', 'and', 'or', 'not', 'in', 'is', 'isfinite')
 
 
 def _is_callable_term(v):
